@@ -57,6 +57,7 @@ func (g *IG) loopFormAt(z *Polyizer, b *ssa.BasicBlock) (*LoopForm, bool) {
 		return nil, false
 	}
 	lf := &LoopForm{Header: h, Body: body, IVs: map[*ssa.Phi]int64{}, Init: map[*ssa.Phi]ssa.Value{}, z: z, Exit: -1}
+	dead := deadBackPreds(h, body)
 	for _, in := range h.Instrs {
 		phi, ok := in.(*ssa.Phi)
 		if !ok {
@@ -72,6 +73,9 @@ func (g *IG) loopFormAt(z *Polyizer, b *ssa.BasicBlock) (*LoopForm, bool) {
 				init = e
 				nInit++
 				continue
+			}
+			if dead[i] {
+				continue // the loop is left at once on this edge
 			}
 			s, ok := stepOf(e, phi)
 			if !ok || (step != 0 && s != step) {
@@ -91,7 +95,7 @@ func (g *IG) loopFormAt(z *Polyizer, b *ssa.BasicBlock) (*LoopForm, bool) {
 			var sv ssa.Value
 			okS := true
 			for i, e := range phi.Edges {
-				if !body[h.Preds[i]] {
+				if !body[h.Preds[i]] || dead[i] {
 					continue
 				}
 				b, ok := stripConv(e).(*ssa.BinOp)
@@ -473,4 +477,53 @@ func sliceElem(z *Polyizer, lf *LoopForm, x ssa.Value, idx Poly) (ssa.Value, Pol
 		return x, idx
 	}
 	return x, idx
+}
+
+// deadBackPreds: the back edges of the loop with header h on which the loop is
+// left at once: the header tests a flag (a boolean phi of the header, possibly
+// negated) whose operand on that edge is a constant that selects the exit
+// (found = true; done = true). What other variables carry on such an edge does
+// not take part in the iteration.
+func deadBackPreds(h *ssa.BasicBlock, body map[*ssa.BasicBlock]bool) map[int]bool {
+	dead := map[int]bool{}
+	if len(h.Instrs) == 0 || len(h.Succs) != 2 {
+		return dead
+	}
+	ifi, ok := h.Instrs[len(h.Instrs)-1].(*ssa.If)
+	if !ok {
+		return dead
+	}
+	cond := ifi.Cond
+	neg := false
+	for {
+		u, ok := cond.(*ssa.UnOp)
+		if !ok || u.Op != token.NOT {
+			break
+		}
+		cond, neg = u.X, !neg
+	}
+	phi, ok := cond.(*ssa.Phi)
+	if !ok || phi.Block() != h {
+		return dead
+	}
+	for i, e := range phi.Edges {
+		if !body[h.Preds[i]] {
+			continue
+		}
+		b, isC := constBool(e)
+		if !isC {
+			continue
+		}
+		if neg {
+			b = !b
+		}
+		target := h.Succs[1]
+		if b {
+			target = h.Succs[0]
+		}
+		if !body[target] {
+			dead[i] = true
+		}
+	}
+	return dead
 }
